@@ -682,12 +682,15 @@ func (e *SpecEnv) with(names map[string]Val) *SpecEnv {
 	return &n
 }
 
-type specErr struct{ msg string }
+type specErr struct {
+	msg        string
+	rebindable string // an unknown local name inside a loop invariant (may be a renamed local: Engine.rebind)
+}
 
 func (e specErr) Error() string { return e.msg }
 
 func sfail(format string, args ...interface{}) {
-	panic(specErr{fmt.Sprintf(format, args...)})
+	panic(specErr{msg: fmt.Sprintf(format, args...)})
 }
 
 func (v Val) formula() *F {
@@ -881,6 +884,15 @@ func (e *SpecEnv) ident(name string) Val {
 	}
 	if v, ok := e.pkgObject(e.pkg, name); ok {
 		return v
+	}
+	// a name that only loop invariants use and that is no local of the code any more (Engine.verifyFunc)
+	if to, ok := e.x.rebind[name]; ok && to != name {
+		if _, chained := e.x.rebind[to]; !chained {
+			return e.ident(to)
+		}
+	}
+	if e.x.rebindOK && e.depth <= 1 {
+		panic(specErr{msg: fmt.Sprintf("unknown identifier %q in spec (package %s)", name, e.pkg), rebindable: name})
 	}
 	sfail("unknown identifier %q in spec (package %s)", name, e.pkg)
 	return Val{}
@@ -1401,6 +1413,7 @@ func (x *Exec) pureApp(fr *Frame, st *State, key string, con *Contract, sig *typ
 			pst.applied[sig0] = true
 			names := x.bindArgs(sig, args)
 			x.bindResults(names, sig, res)
+			x.aliasRenamed(con, sig, names)
 			x.lastPre, x.lastPreQ = nil, false
 			env := &SpecEnv{x: x, fr: fr, st: st, old: st, names: names, pkg: con.Pkg, depth: 1, g: gd}
 			if pst != st {
